@@ -212,11 +212,11 @@ impl Scope {
                             //         read_number_of_ext_fields
                             //     )));
                         }
-                        // only as many presence bits as were transmitted: additions the writer did not
-                        // know yet are absent
-                        let range = bits.pos()
-                            ..bits.pos() + (*number_of_ext_fields).min(read_number_of_ext_fields);
-                        bits.set_pos(range.start + read_number_of_ext_fields); // skip bit-field
+                        // as many presence bits as were transmitted: additions the writer did not know
+                        // yet are absent, additions this reader does not know are skipped afterwards
+                        let range =
+                            bits.pos()..bits.pos().saturating_add(read_number_of_ext_fields);
+                        bits.set_pos(range.end); // skip bit-field
                         *self = Scope::AllBitField(range);
                     } else {
                         *self = Scope::ExtensibleSequenceEmpty(name);
@@ -881,6 +881,44 @@ impl<B: ScopedBitRead> UperReader<B> {
         result
     }
 
+    /// Skips the extension additions that were transmitted but are unknown to this reader, so that
+    /// whatever follows the sequence is read from the right position
+    fn skip_unknown_extension_additions(&mut self) -> Result<(), Error> {
+        let unknown = match &mut self.scope {
+            Some(Scope::AllBitField(range)) => {
+                let unknown = range.clone();
+                range.start = range.end;
+                unknown
+            }
+            Some(Scope::ExtensibleSequence {
+                calls_until_ext_bitfield: 0,
+                ..
+            }) => {
+                // no addition is known locally: the whole addition block is unknown
+                let count = (self.bits.read_normally_small_length()? as usize).saturating_add(1);
+                let start = self.bits.pos();
+                let end = start.saturating_add(count);
+                self.bits.set_pos(end);
+                self.scope = Some(Scope::AllBitField(end..end));
+                start..end
+            }
+            _ => return Ok(()),
+        };
+        for position in unknown {
+            if self
+                .bits
+                .with_read_position_at(position, |b| b.read_bit())?
+            {
+                let length = self.bits.read_length_determinant(None, None)? as usize;
+                let end = self.bits.pos() + length * BYTE_LEN;
+                if self.bits.set_pos(end) != end {
+                    return Err(ErrorKind::EndOfStream.into());
+                }
+            }
+        }
+        Ok(())
+    }
+
     #[inline]
     pub fn read_bit_field_entry(&mut self, is_opt: bool) -> Result<Option<bool>, Error> {
         #[allow(clippy::let_and_return)]
@@ -987,7 +1025,11 @@ impl<B: ScopedBitRead> Reader for UperReader<B> {
                         calls_until_ext_bitfield: (extension_after + 1) as usize,
                         number_of_ext_fields: (C::FIELD_COUNT - (extension_after + 1)) as usize,
                     },
-                    f,
+                    |r| {
+                        let value = f(r)?;
+                        r.skip_unknown_extension_additions()?;
+                        Ok(value)
+                    },
                 )
             } else {
                 r.scope_pushed(Scope::OptBitField(range), f)
